@@ -32,8 +32,10 @@ Prefix(s, p) == Len(s) >= Len(p) /\ SubSeq(s, 1, Len(p)) = p
 \* parts of group g in a set of <<key, hash>> pairs
 Of(P, g) == {q \in P : Prefix(q[1], g \o ":")}
 \* the parts a request addressing `addr` may change
+Suffix(s, p) == Len(s) >= Len(p) /\ SubSeq(s, Len(s) - Len(p) + 1, Len(s)) = p
 MayChange(key, addr) ==
   \/ addr = "any"
+  \/ Suffix(key, ":stat")
   \/ \E g \in {"g", "h", "n"} :
        \/ (addr = g \o ":desc" /\ key \in {g \o ":rest", g \o ":parses", g \o ":keys"} /\ FALSE)
        \/ (addr = g \o ":desc" /\ key = g \o ":rest")
@@ -73,17 +75,29 @@ THttp ==
                        IF changed THEN "C17_preflight_had_an_effect" ELSE "ok"
                   [] OTHER -> "ok"
          \* ---- C17: an update leaves alone what it does not address
+         Keys(S) == {q[1] : q \in S}
+         GroupOf(addr) == CHOOSE gg \in {"g", "h", "n", "?"} : gg = "?" \/ Prefix(addr, gg \o ":")
+         \* a whole definition may appear only if there was none, and vanish only if none is left
+         WholeOK(key, S) == ~(x.addr = GroupOf(x.addr) \o ":desc" /\ (GroupOf(x.addr) \o ":parses") \in Keys(S)) \/ MayChange(key, x.addr)
          kept == IF pd = "" \/ x.addr = "any" \/ x.class = "crash" THEN "ok"
-                 ELSE IF \E q \in pp : q \notin P /\ ~MayAppear(q[1], x.addr) /\ ~(\E q2 \in P : q2[1] = q[1] /\ MayChange(q[1], x.addr))
+                 ELSE IF \E q \in pp : q[1] \in Keys(P) /\ q \notin P /\ ~MayChange(q[1], x.addr)
                       THEN "C17_update_altered_or_removed_a_part_it_does_not_address"
-                 ELSE IF \E q \in P : q \notin pp /\ ~MayAppear(q[1], x.addr) THEN "C17_update_altered_or_removed_a_part_it_does_not_address"
+                 ELSE IF \E q \in pp : q[1] \notin Keys(P) /\ ~(MayAppear(q[1], x.addr) /\ WholeOK(q[1], P))
+                      THEN "C17_update_altered_or_removed_a_part_it_does_not_address"
+                 ELSE IF \E q \in P : q[1] \notin Keys(pp) /\ ~(MayAppear(q[1], x.addr) /\ WholeOK(q[1], pp))
+                      THEN "C17_update_added_a_part_it_does_not_address"
                  ELSE "ok"
          \* ---- C18: files always parse
-         parses == IF \E q \in P : q[2] = "no" \/ Prefix(q[1], "stray:") THEN "C18_X3_definition_file_partial_or_stray_file_visible" ELSE "ok"
+         \* (a left-over "*.temp" file is not a definition: the group layer only ever opens "<name>.json")
+         parses == IF \E q \in P : q[2] = "no" THEN "C18_X3_definition_file_partial" ELSE "ok"
          \* ---- C18: preconditions.  g = the group whose definition file the request is about
          g == x.g
          v0 == Get(ver, g, 0)
-         exists == \E q \in pp : q[1] = g \o ":parses"
+         HasKey(k) == \E q \in pp : q[1] = k
+         exists == CASE x.obj = "desc" -> HasKey(g \o ":parses")
+                     [] x.obj = "wild" -> HasKey(g \o ":wild:perm")
+                     [] x.obj = "keys" -> HasKey(g \o ":parses")
+                     [] OTHER -> HasKey(g \o ":user:" \o x.obj \o ":perm")
          hv == IF x.editor \in DOMAIN held /\ held[x.editor].g = g THEN held[x.editor].ver ELSE -1
          matches == \/ (x.form \in {"exact", "list-containing"} /\ hv = v0 /\ exists)
                     \/ (x.form = "star" /\ exists)
@@ -95,15 +109,37 @@ THttp ==
                 ELSE IF want = "412" /\ changed THEN "C18_X1_failed_conditional_write_changed_the_definition"
                 ELSE IF want = "304" /\ e.status # 304 THEN "C18_X2_current_tag_not_answered_with_304"
                 ELSE IF want # "304" /\ e.status = 304 THEN "C18_X2_304_for_a_tag_that_is_not_current"
-                ELSE IF want = "proceed" /\ e.status = 412 /\ x.form # "absent" THEN "C18_X1_current_tag_refused"
+                ELSE IF want = "proceed" /\ e.status = 412 /\ x.form # "absent" THEN "N18_current_tag_refused"
                 ELSE "ok"
-         v1 == IF g # "" /\ Of(P, g) # Of(pp, g) /\ pd # "" THEN v0 + 1 ELSE v0
+         Stat(S) == {q \in S : q[1] = g \o ":stat"}
+         v1 == IF g # "" /\ Stat(P) # Stat(pp) /\ pd # "" THEN v0 + 1 ELSE v0
      IN /\ Report(First(<<r2, leak, cls, kept, parses, pre>>))
         /\ pd' = e.digest /\ pp' = P
         /\ ver' = IF g = "" THEN ver ELSE Put(ver, g, v1)
         \* a response that served a tag makes the editor hold the version it belongs to
-        /\ held' = IF x.editor # "" /\ e.etag # "" /\ e.status \in {200, 304} THEN Put(held, x.editor, [g |-> g, ver |-> v1]) ELSE held
+        /\ held' = IF g # "" /\ e.etag # "" /\ e.status \in {200, 304} THEN Put(held, e.name, [g |-> g, ver |-> v1]) ELSE held
   /\ UNCHANGED nbeh
+
+\* racing conditional writers that all carry the tag held by x.editor: at most one may succeed, none if it is stale
+THttpRace ==
+  /\ Ev.ev = "httprace"
+  /\ LET e == Ev
+         x == e.x
+         P == Pairs(e.parts)
+         g == x.g
+         v0 == Get(ver, g, 0)
+         hv == IF x.editor \in DOMAIN held /\ held[x.editor].g = g THEN held[x.editor].ver ELSE -1
+         Stat(S) == {q \in S : q[1] = g \o ":stat"}
+     IN /\ Report(First(<<
+              IF e.leaks # <<>> THEN "C17_response_reveals_a_secret" ELSE "ok",
+              IF \E i \in 1..Len(e.statuses) : e.statuses[i] = -1 THEN "C12_R2_http_request_got_no_response" ELSE "ok",
+              IF hv # v0 /\ e.oks > 0 THEN "C18_X1_conditional_write_succeeded_although_the_tag_is_not_current" ELSE "ok",
+              IF e.oks > 1 THEN "C18_X1_two_racing_writers_with_the_same_tag_both_succeeded" ELSE "ok",
+              IF e.oks = 0 /\ e.digest # pd THEN "C18_X1_failed_conditional_write_changed_the_definition" ELSE "ok",
+              IF \E q \in P : q[2] = "no" THEN "C18_X3_definition_file_partial" ELSE "ok">>))
+        /\ pd' = e.digest /\ pp' = P
+        /\ ver' = Put(ver, g, IF Stat(P) # Stat(pp) THEN v0 + 1 ELSE v0)
+        /\ UNCHANGED <<held, nbeh>>
 
 \* C11-A5: WHIP ingest only with credentials granting present; the session only with its bearer
 TWhip == /\ Ev.ev = "whip"
@@ -119,14 +155,14 @@ TDead == /\ Ev.ev \in {"dead", "startfail"}
          /\ UNCHANGED <<nbeh, pd, pp, ver, held>>
 \* after a crash in the middle of a write: a restarted server finds the complete old or the complete new definition
 TFiles == /\ Ev.ev = "files"
-          /\ Report(IF \E i \in 1..Len(Ev.parts) : Ev.parts[i][2] = "no" \/ Prefix(Ev.parts[i][1], "stray:")
-                    THEN "C18_X3_definition_file_partial_or_stray_file_visible"
+          /\ Report(IF \E i \in 1..Len(Ev.parts) : Ev.parts[i][2] = "no"
+                    THEN "C18_X3_definition_file_partial"
                     ELSE "ok")
           /\ pp' = Pairs(Ev.parts) /\ pd' = Ev.digest
           /\ UNCHANGED <<nbeh, ver, held>>
-TOther == /\ Ev.ev \notin {"New", "http", "whip", "whipreq", "dead", "startfail", "files"}
+TOther == /\ Ev.ev \notin {"New", "http", "httprace", "whip", "whipreq", "dead", "startfail", "files"}
           /\ UNCHANGED <<nbeh, nbad, pd, pp, ver, held>>
-Step == /\ l <= Len(Trace) /\ (TNew \/ THttp \/ TWhip \/ TWhipReq \/ TDead \/ TFiles \/ TOther)
+Step == /\ l <= Len(Trace) /\ (TNew \/ THttp \/ THttpRace \/ TWhip \/ TWhipReq \/ TDead \/ TFiles \/ TOther)
         /\ l' = l + 1 /\ UNCHANGED done
 Finish == /\ l = Len(Trace) + 1 /\ ~done /\ done' = TRUE
           /\ PrintT(<<"TRACE-DONE", l - 1, nbeh, 0, IF nbad > 60 THEN 60 ELSE nbad>>)
